@@ -332,6 +332,20 @@ class CustomFootnoteDef(footnote.FootnoteDef):
 
     pattern: re.Pattern[str] = re.compile(r" {,3}\[\^([^\]\n]+)\]:[^\n\S]*(?=\S| {4})")
 
+    def __init__(self, match: re.Match[str]) -> None:
+        super().__init__(match)
+        # Marko compares line prefixes with the line after expanding its tabs, so a prefix
+        # that holds a tab can never match and the block parser stops making progress
+        # (`[^fn]:` + tab + `x` hangs). Write the whitespace after the colon as the
+        # spaces it expands to.
+        text = match.group()
+        marker = text.rstrip()
+        line_start = match.string.rfind("\n", 0, match.start()) + 1
+        before = match.string[line_start : match.start()] + marker
+        whole = match.string[line_start : match.end()]
+        width = len(whole.expandtabs(4)) - len(before.expandtabs(4))
+        self._prefix = re.escape(marker) + " " * width
+
 
 class CustomParser(Parser):
     def __init__(self) -> None:
